@@ -20,6 +20,7 @@ Not covered here: the chrono/time conversions (C16 models the foreign crates abs
 -/
 import JulianVerif.Lemmas.CheckedMisc
 import JulianVerif.Lemmas.CheckedCmp
+import JulianVerif.Lemmas.GenLibWF
 namespace JV.C05
 open JV Spec
 
@@ -202,5 +203,126 @@ theorem range_comparisons_checked (v l u : Int) (h : l ≤ u) (y : Int) (m : Mon
     Chk.cmpIntRange v l u = some (cmpIntRange v l u)
     ∧ Chk.cmpYmRange (y, m) (ly, lm) (uy, um) = some (cmpYmRange y m ly lm uy um) :=
   ⟨Chk.cmpIntRange_eq v l u h, Chk.cmpYmRange_eq y m ly lm uy um h'⟩
+
+/-! ### the same statements for the definitions GENERATED from lib.rs
+
+`Gen.*` (Model/GenLib.lean) is not written by hand: bin/libgen translates the `const fn`s of
+lib.rs (and the small helpers of inner.rs) construct by construct — every `+ - *` and narrowing
+cast a checked operation, every `unreachable!()` / `debug_assert!` a fault, early returns,
+`let mut`, guarded `match` arms and the unrolled `for_month!` loops included — and `bin/check`
+regenerates the file from /repo's working tree on every run and compares it with the text these
+theorems are about (DESIGN.md 0.9).  Lemmas/GenLib.lean proves each generated function equal to
+its hand-written counterpart; the theorems below chain that with the results above, so for these
+functions no hand-copied link remains between the Rust source and the unbounded model. -/
+
+/-- the generated `Calendar::reforming` is fault-free and is the model's, for every i32 argument -/
+theorem generated_reforming (r : Int) (hr : InI32 r) :
+    Gen.calendarReforming r = some (Calendar.mkReforming r) := by
+  rw [Gen.calendarReforming_eq]; exact (reforming_no_panic r hr).1
+
+/-- the generated year and month queries, for every calendar a caller can hold and every year -/
+theorem generated_year_queries (c : Calendar) (hc : WF c) (y : Int) (m : Month) :
+    Gen.calendarYearKind c y = some (c.yearKind y)
+    ∧ Gen.calendarYearLength c y = some (c.yearLength y)
+    ∧ Gen.calendarMonthShape c y m = some (c.monthShape y m) := by
+  have hg := Gen.WF.gapOrdered hc
+  obtain ⟨h1, h2, _, _⟩ := year_queries_no_panic c hc y m
+  refine ⟨Gen.calendarYearKind_eq c hg y, ?_, ?_⟩
+  · rw [Gen.calendarYearLength_eq c hg, h1]
+  · rw [Gen.calendarMonthShape_eq c hg, h2]; rfl
+
+/-- the generated `at_jdn`, `at_ymd`, `at_ordinal_date` -/
+theorem generated_constructors (c : Calendar) (hc : WF c) :
+    (∀ j, InI32 j → Gen.calendarAtJdn c j = c.atJdn? j ∧ c.atJdn? j ≠ none)
+    ∧ (∀ y m d, InI32 y → InU32 d → Gen.calendarAtYmd c y m d = some (c.atYmd y m d))
+    ∧ (∀ y o, InI32 y → InU32 o → Gen.calendarAtOrdinalDate c y o = some (c.atOrdinalDate y o)) := by
+  have hg := Gen.WF.gapOrdered hc
+  refine ⟨?_, ?_, ?_⟩
+  · intro j hj
+    obtain ⟨d, h1, h2⟩ := atJdn_no_panic c hc j hj
+    rw [Gen.calendarAtJdn_eq c hg, h1, h2]; simp
+  · intro y m d hy hd
+    rw [Gen.calendarAtYmd_eq c hg]; exact atYmd_no_panic c hc y hy m d hd
+  · intro y o hy ho
+    rw [Gen.calendarAtOrdinalDate_eq c hg]; exact (atOrdinalDate_no_panic c hc y hy o ho).1
+
+/-- the generated boundary accessors -/
+theorem generated_boundary_dates (c : Calendar) (hc : WF c) :
+    Gen.calendarLastJulianDate c = some c.lastJulianDate
+    ∧ Gen.calendarFirstGregorianDate c = some c.firstGregorianDate := by
+  rw [Gen.calendarLastJulianDate_eq, Gen.calendarFirstGregorianDate_eq]
+  exact boundary_dates_no_panic c hc
+
+/-- the generated `MonthShape` methods, for every shape `month_shape` returns -/
+theorem generated_shape_methods (c : Calendar) (hc : WF c) (y : Int) (hy : InI32 y) (m : Month) (s : IShape)
+    (hs : c.monthIShape y m = some s) (n : Int) (hn : InU32 n) :
+    Gen.monthShapeLen ⟨c, y, m, s⟩ = some s.len
+    ∧ Gen.monthShapeNthDay ⟨c, y, m, s⟩ n = some (s.nthDay n)
+    ∧ Gen.monthShapeDayOrdinalErr ⟨c, y, m, s⟩ n = some (s.dayOrdinalErr y m n)
+    ∧ Gen.monthShapeGap ⟨c, y, m, s⟩ = some s.gap
+    ∧ Gen.monthShapeNthDate ⟨c, y, m, s⟩ n = some (MonthShape.nthDate ⟨c, y, m, s⟩ n)
+    ∧ Gen.monthShapeContains ⟨c, y, m, s⟩ n = s.contains n
+    ∧ Gen.monthShapeFirstDay ⟨c, y, m, s⟩ = s.firstDay ∧ Gen.monthShapeLastDay ⟨c, y, m, s⟩ = s.lastDay
+    ∧ Gen.monthShapeKind ⟨c, y, m, s⟩ = s.kind := by
+  obtain ⟨h1, h2, h3, h4⟩ := shape_methods_no_panic c hc y m s hs n hn
+  refine ⟨?_, ?_, ?_, ?_, ?_, ?_, ?_, ?_, ?_⟩
+  · rw [Gen.monthShapeLen_eq]; exact h1
+  · rw [Gen.monthShapeNthDay_eq]; exact h2
+  · rw [Gen.monthShapeDayOrdinalErr_eq]; exact h3
+  · rw [Gen.monthShapeGap_eq]; exact h4
+  · rw [Gen.monthShapeNthDate_eq _ (Gen.WF.gapOrdered hc)]; exact nthDate_no_panic c hc y hy m s hs n hn
+  · exact Gen.monthShapeContains_eq _ n
+  · exact Gen.monthShapeFirstDay_eq _
+  · exact Gen.monthShapeLastDay_eq _
+  · exact Gen.monthShapeKind_eq _
+
+/-- the generated `Date` methods, for every date the library hands out -/
+theorem generated_date_methods (d : Date) (hc : WF d.calendar) (hj : InI32 d.jdn)
+    (hcan : d.calendar.atJdn? d.jdn = some d) :
+    Gen.dateSucc d = some d.succ ∧ Gen.datePred d = some d.pred
+    ∧ Gen.dateOrdinal0 d = some d.ordinal0 ∧ Gen.dateDayOrdinal0 d = some d.dayOrdinal0
+    ∧ Gen.dateIsJulian d = d.isJulian ∧ Gen.dateIsGregorian d = d.isGregorian
+    ∧ Gen.dateWeekday d = Weekday.forJdn? d.jdn := by
+  have hg := Gen.WF.gapOrdered hc
+  obtain ⟨h1, h2, h3, h4⟩ := succ_pred_no_panic d hc hj hcan
+  refine ⟨?_, ?_, ?_, ?_, Gen.dateIsJulian_eq d, Gen.dateIsGregorian_eq d, ?_⟩
+  · rw [Gen.dateSucc_eq d hg]; exact h1
+  · rw [Gen.datePred_eq d hg]; exact h2
+  · rw [Gen.dateOrdinal0_eq]; exact h3
+  · rw [Gen.dateDayOrdinal0_eq]; exact h4
+  · rw [Gen.dateWeekday_eq]; exact (weekday_no_panic d.jdn).1
+
+/-- the generated `convert_to` is `at_jdn` of the target calendar -/
+theorem generated_convert_to (d : Date) (c : Calendar) (hc : WF c) (hj : InI32 d.jdn) :
+    Gen.dateConvertTo d c = c.atJdn? d.jdn := by
+  obtain ⟨d', h1, h2⟩ := atJdn_no_panic c hc d.jdn hj
+  rw [Gen.dateConvertTo_eq d c (Gen.WF.gapOrdered hc), h1, h2]
+
+/-- the generated timestamp functions and weekday -/
+theorem generated_timestamps :
+    (∀ t, InI64 t → Gen.unix2jdn t = some (unix2jdn t))
+    ∧ (∀ j, InI32 j → Gen.jdn2unix j = some (jdn2unix j))
+    ∧ (∀ j, Gen.weekdayForJdn j = Weekday.forJdn? j) := by
+  refine ⟨?_, ?_, ?_⟩
+  · intro t ht; rw [Gen.unix2jdn_eq t ht]; exact timestamps_no_panic.1 t ht
+  · intro j hj; rw [Gen.jdn2unix_eq]; exact timestamps_no_panic.2.1 j hj
+  · intro j; rw [Gen.weekdayForJdn_eq]; exact (weekday_no_panic j).1
+
+/-- the helpers that cannot fault are the model's functions, and the built-in 1582 constant is
+the model's literal -/
+theorem generated_helpers :
+    Gen.isJulianLeapYear = isJulianLeapYear ∧ Gen.isGregorianLeapYear = isGregorianLeapYear
+    ∧ (∀ a b, Gen.monthLt a b = a.lt b) ∧ (∀ a b, Gen.monthLe a b = a.le b)
+    ∧ (∀ a b, Gen.monthEq a b = (a == b)) ∧ (∀ m, Gen.monthNumber m = m.number)
+    ∧ (∀ m, Gen.monthPred m = m.pred) ∧ (∀ m, Gen.monthSucc m = m.succ)
+    ∧ (∀ w, Gen.weekdayNumber w = w.number) ∧ (∀ w, Gen.weekdayPred w = w.pred)
+    ∧ (∀ w, Gen.weekdaySucc w = w.succ)
+    ∧ (∀ c, Gen.calendarGap c = c.gap) ∧ (∀ c, Gen.calendarReformation c = c.reformation)
+    ∧ (∀ c, Gen.calendarIsReforming c = c.isReforming) ∧ (∀ c, Gen.calendarIsProleptic c = c.isProleptic)
+    ∧ Gen.calendarREFORM1582 = Calendar.reform1582 :=
+  ⟨Gen.isJulianLeapYear_eq, Gen.isGregorianLeapYear_eq, Gen.monthLt_eq, Gen.monthLe_eq, Gen.monthEq_eq,
+    Gen.monthNumber_eq, Gen.monthPred_eq, Gen.monthSucc_eq, Gen.weekdayNumber_eq, Gen.weekdayPred_eq,
+    Gen.weekdaySucc_eq, Gen.calendarGap_eq, Gen.calendarReformation_eq, Gen.calendarIsReforming_eq,
+    Gen.calendarIsProleptic_eq, Gen.calendarREFORM1582_eq⟩
 
 end JV.C05
